@@ -211,12 +211,16 @@ class ExitDrain(Part):
     def strategy(self, ctx):
         return st.fixed_dictionaries(dict(
             n=st.integers(1, 12), delay=st.sampled_from([0.0, 0.005, 0.03]), size=st.sampled_from([1, 100, 70000]),
-            how=st.just("exit"), kind=st.sampled_from(["receive", "callback"])))
+            how=st.just("exit"), kind=st.sampled_from(["receive", "callback"]),
+            # items sent to the worker immediately before exit(): they are ahead of the terminate message and are answered
+            presend=st.lists(st.sampled_from([1, 3000, 70000, 3000000]), max_size=3)))
 
     def run(self, case, ctx):
-        src = ("import time\nchannel.send('started')\nfor i in range(%d):\n    time.sleep(%r)\n    channel.send([i, 'x' * %d])\n"
-               "channel.send('done')\n" % (case["n"], case["delay"], case["size"]))
-        want = ["started"] + [[i, case["size"]] for i in range(case["n"])] + ["done"]
+        pre = case.get("presend", [])
+        src = ("import time\nchannel.send('started')\nfor k in range(%d):\n    channel.send(['got', len(channel.receive())])\n"
+               "for i in range(%d):\n    time.sleep(%r)\n    channel.send([i, 'x' * %d])\n"
+               "channel.send('done')\n" % (len(pre), case["n"], case["delay"], case["size"]))
+        want = ["started"] + [["got", k] for k in pre] + [[i, case["size"]] for i in range(case["n"])] + ["done"]
         group = self.execnet.Group()
         results = {}
         try:
@@ -234,6 +238,8 @@ class ExitDrain(Part):
                         END = object()
                         box = []
                         ch.setcallback(box.append, endmarker=END)
+                    for k in pre:
+                        ch.send("y" * k)
                     gw.exit()
                     if case["kind"] == "callback":
                         t_end = time.time() + 60
@@ -252,7 +258,7 @@ class ExitDrain(Part):
                                 tail = "timeout"
                             except ch.RemoteError as e:
                                 tail = "remote-error:" + str(e).strip().splitlines()[-1][:80]
-                    got += [[x[0], len(x[1])] if isinstance(x, list) else x for x in items]
+                    got += [[x[0], len(x[1]) if isinstance(x[1], str) else x[1]] if isinstance(x, list) else x for x in items]
                     results[t] = (got, tail)
             if wd.fired:
                 raise Violation("exitdrain.hang", f"did not finish within 120 s: {sorted(results)} done")
@@ -263,7 +269,7 @@ class ExitDrain(Part):
                                     f"delivered {len(ref[0])} of {len(want)} items then {ref[1]}, {t} delivered "
                                     f"{len(results[t][0])} then {results[t][1]}", site=t)
             return dict(labels=[f"delay:{case['delay']}", f"size:{case['size']}", case["kind"],
-                                "complete" if ref[0] == want else "incomplete"],
+                                "complete" if ref[0] == want else "incomplete", f"presend:{len(pre)}"],
                         nontrivial=case["n"] >= 2, sample=dict(case, delivered=len(ref[0]), of=len(want), tail=ref[1]))
         finally:
             try:
